@@ -1652,8 +1652,7 @@ Proof.
     destruct (X Al) as (X1 & X2 & X3).
     unfold Inv0. split; [|split; [|split; [|exact X]]].
     + split; cbn; rewrite ?Ech; unfold nretry, nstart; cbn; auto; try congruence; try lia.
-      * intros [Z|Z]; [congruence|exfalso; apply Z; reflexivity].
-      * rewrite X1. cbn. lia.
+      intros [Z|Z]; [congruence|exfalso; apply Z; reflexivity].
     + unfold Kdc. cbn. congruence.
     + destruct C as [D C]. split; [exact D|]. cbn. pose proof C as C0. cdestr C0.
       pose proof (Cde Al) as Cn0. rewrite Cn0 in *.
